@@ -291,6 +291,81 @@ def c10():
                                  "reserved word %r was changed" % tok_in, "conflicting_words")
 
 
+def c08_multi():
+    """one run over several streams / files: the same secret gets the same replacement in every file and different
+    secrets never share one"""
+    import tempfile, shutil
+    from netconan.anonymize_files import anonymize_files
+    secs = [secret("text", 1), secret("text", 2), secret("hex", 1), secret("numeric", 2)]
+    j_plain = "JunosKey77"
+    j1, j2 = js.juniper_nonrandom_encrypt(j_plain, "a"), js.juniper_nonrandom_encrypt(j_plain, "Q")
+    files = [["password %s" % secs[0], "snmp-server community %s RO" % secs[1], "key %s" % secs[2],
+              'secret "%s"; ## SECRET-DATA' % j1],
+             ["key %s" % secs[3], "enable password %s" % secs[2], 'secret "%s"; ## SECRET-DATA' % j2,
+              "password %s" % secs[1], "snmp-server community %s RO" % secs[0]]]
+    keys = [[secs[0], secs[1], secs[2], "J:" + j_plain], [secs[3], secs[2], "J:" + j_plain, secs[1], secs[0]]]
+
+    def judge(outs, how):
+        repl = {}
+        for ks, out in zip(keys, outs):
+            for k, ln in zip(ks, out.splitlines()):
+                tok = [t for t in ln.split() if t not in ("RO", "##", "SECRET-DATA")][-1].strip('";')
+                if k.startswith("J:"):
+                    try:
+                        tok = "J9:" + js.juniper_decrypt(tok)
+                    except ValueError:
+                        tok = "J9-bad:" + tok
+                repl.setdefault(k, set()).add(tok)
+        for k, v in repl.items():
+            if len(v) > 1:
+                fail("C08.inconsistent-across-files", {"how": how, "files": files, "outputs": outs, "secret": k,
+                                                       "replacements": sorted(v)},
+                     "equal secrets received different replacements in one run", "FileAnonymizer.pwd_lookup")
+        flat = [next(iter(v)) for v in repl.values() if len(v) == 1]
+        if len(set(flat)) != len(flat):
+            fail("C08.collision-across-files", {"how": how, "files": files, "outputs": outs},
+                 "different secrets share a replacement in one run", "FileAnonymizer.pwd_lookup")
+
+    note(("multi", "streams"))
+    fa = FileAnonymizer(anon_pwd=True, anon_ip=False, salt="s8")
+    outs = []
+    for f in files:
+        o = io.StringIO()
+        fa.anonymize_io(io.StringIO("\n".join(f) + "\n"), o)
+        outs.append(o.getvalue())
+    judge(outs, "two anonymize_io calls on one FileAnonymizer")
+    note(("multi", "directory"))
+    d = tempfile.mkdtemp(prefix="rtc08_")
+    try:
+        os.makedirs(os.path.join(d, "in", "sub"))
+        names = [os.path.join("a.cfg"), os.path.join("sub", "b.cfg")]
+        for nm, f in zip(names, files):
+            with open(os.path.join(d, "in", nm), "w") as fh:
+                fh.write("\n".join(f) + "\n")
+        anonymize_files(os.path.join(d, "in"), os.path.join(d, "out"), True, False, salt="s8")
+        outs = [open(os.path.join(d, "out", nm)).read() for nm in names]
+        judge(outs, "anonymize_files over a directory")
+    finally:
+        shutil.rmtree(d, ignore_errors=True)
+
+
+def c10_with_secrets():
+    """sensitive words next to secrets, including lines that are scrubbed: no listed word survives"""
+    words = ["seattle", "zurich"]
+    lines = ["ssid seattle-corp wpa-psk ascii 0 pw", "cable shared-secret 7 0822455D0A16 zurich",
+             "username zurichadmin password 0 Alpha1xg", "snmp-server community seattlecomm RO",
+             "seattle-grp ldap-login-password abc", "description seattle uplink", "password 7 0822455D0A16 seattle",
+             "neighbor 1.2.3.4 password seattle zurich"]
+    for pwd in (True, False):
+        note(("with-secrets", pwd))
+        out = run_io("\n".join(lines) + "\n", salt="w", anon_pwd=pwd, anon_ip=False, sensitive_words=list(words))
+        for ln_in, ln_out in zip(lines, out.splitlines()):
+            for w in words:
+                if w in ln_out.lower():
+                    fail("C10.survives", {"words": words, "anon_pwd": pwd, "line": ln_in, "output": ln_out},
+                         "sensitive word %r survives" % w, "anonymize_io")
+
+
 BENIGN = ["interface GigabitEthernet0/1", " description uplink  to   core", "\tno shutdown", "", "   ", "\t", "!",
           "router bgp 65001", " neighbor 10.1.2.3 remote-as 65002", "ip route 0.0.0.0 0.0.0.0 192.0.2.1",
           "line vty 0 4", " transport input ssh", "hostname edge-rtr", "ipv6 address 2001:db8::1/64",
@@ -331,6 +406,27 @@ def c12():
                 if one != whole[i]:
                     fail("C12.context", {"features": f2, "line": ln, "alone": one, "in_file": whole[i]},
                          "line output depends on other lines", "anonymize_io")
+
+
+def c12_verbatim():
+    """secret-bearing lines whose other tokens contain characters special to regex replacement templates:
+    exactly one line out, every token except the secret carried over verbatim"""
+    odd = ["CORP\\netadmin", "CORP\\admin", "a\\tb", "x\\1y", "g\\g<0>h", "tail\\", "p&q", "$1", "r\\r", "q\\sz", "u\\u12"]
+    forms = ["username {o} secret 5 {s}", "username {o} password 0 {s}", "snmp-server user nms {o} auth md5 {s}",
+             "snmp-server host {o} version 2c {s}", "{o} neighbor 1.2.3.4 password {s}"]
+    sec = {0: secret("md5", 1), 1: secret("text", 1), 2: secret("text", 2), 3: secret("text", 3), 4: secret("type7", 2)}
+    for o in odd:
+        for i, form in enumerate(forms):
+            line = form.format(o=o, s=sec[i]) + "\n"
+            note(("verbatim", o, i))
+            out = run_io(line, salt="s12", anon_pwd=True, anon_ip=False)
+            if len(out.splitlines(True)) != 1 or not out.endswith("\n"):
+                fail("C12.linecount", {"line": line, "output": out}, "one input line did not give one output line", "replace_matching_item")
+                continue
+            ti, to = line.split(), out.split()
+            keep_i = [t for t in ti if t != sec[i]]
+            if len(ti) != len(to) or [t for t, u in zip(to, ti) if u != sec[i]] != keep_i:
+                fail("C12.token", {"line": line, "output": out}, "non-sensitive tokens changed", "replace_matching_item")
 
 
 CORPUS = "\n".join(BENIGN + [LINE_FORMS[i].format(s=secret(c, 2), s2=secret(c, 3), k32="k" * 32)
@@ -688,14 +784,14 @@ def c19():
         fail("C19.dump", {"error": e1}, "map dump with IP anonymization failed", "main")
 
 
-CHECKS = {"C07": [c07], "C08": [c08], "C09": [c09], "C10": [c10], "C12": [c12], "C13": [c13], "C14": [c14], "C15": [c15],
+CHECKS = {"C07": [c07], "C08": [c08, c08_multi], "C09": [c09], "C10": [c10, c10_with_secrets], "C12": [c12, c12_verbatim], "C13": [c13], "C14": [c14], "C15": [c15],
           "C16": [c16], "C19": [c19]}
 BOUNDS = {
     "C07": "25 line forms x 7 secret format classes x 2 secret variants (same equality pattern), output and INFO+ log compared; 8 standalone hash tokens",
-    "C08": "60/1500 random runs: 2-5 secrets of mixed classes over 3-8 lines, 6 enclosing-text variants, $9$ re-encodings under random salts",
+    "C08": "60/1500 random runs: 2-5 secrets of mixed classes over 3-8 lines, 6 enclosing-text variants, $9$ re-encodings under random salts; one run over two streams and over a two-file directory with shared secrets in different positions",
     "C09": "4 netconan salts x 5 line forms x 7 classes x 2/8 secrets x 8 enclosing-text variants; type 7 decoded, $1$ salt length, $6$ shape, $9$ decrypted",
-    "C10": "5 word lists (prefixes/substrings, mixed case, a regex metacharacter) x 3 reserved sets x 2/3 hash seeds (subprocesses) x 11 lines",
-    "C12": "15 feature subsets x 5 texts (blank lines, tabs, CRLF, no final newline, empty); per-line independence for 17 lines",
+    "C10": "5 word lists (prefixes/substrings, mixed case, a regex metacharacter) x 3 reserved sets x 2/3 hash seeds (subprocesses) x 11 lines; 8 lines mixing words with secrets and scrubbed forms, secrets on and off",
+    "C12": "15 feature subsets x 5 texts (blank lines, tabs, CRLF, no final newline, empty); per-line independence for 17 lines; 11 tokens with backslash / template characters x 5 secret line forms carried over verbatim",
     "C13": "4 option sets x 2/4 hash seeds in fresh processes + in-process repeat after an unrelated anonymizer + caller's lists; no-salt path",
     "C14": "7 salts (empty, non-alphabet first character, non-ASCII) x 5 feature sets x ~75/650 hostile lines (backslashes, metacharacters, malformed hashes, 3000 quotes)",
     "C15": "3 option sets x 35 feature/undo combinations: combined run vs chained single-feature runs on a 30-line corpus incl. IPv6 with dotted tail",
